@@ -178,7 +178,8 @@ func (r *runner) doAPI(fx *fixture, kind, mut, op string, orig map[string]*kvs) 
 			return
 		}
 		res.Count("api:" + kind + ":" + v)
-		if hasNil {
+		if hasNil && v == "ok" {
+			r.fail("spec", "accepted-bound:res.null-entry", "results with a null transaction result were accepted", caseLn)
 			return
 		}
 		if v == "convert-error" {
@@ -283,7 +284,8 @@ func (r *runner) doAPI(fx *fixture, kind, mut, op string, orig map[string]*kvs) 
 			}
 			return
 		}
-		if missing {
+		if missing && v == "ok" {
+			r.fail("spec", "accepted-bound:params.missing-submessage", "parameters with a missing section were accepted", caseLn)
 			return
 		}
 		r.add(item{kind: "api-params", mut: mut, caseLn: caseLn, line: k.line("vparams", "want="+v)})
@@ -367,7 +369,12 @@ func (r *runner) doAPI(fx *fixture, kind, mut, op string, orig map[string]*kvs) 
 		v, pmsg := guard(func() string {
 			var err error
 			got, err = c.SubmitTxWithProof(ctx, &tx)
-			return apiErr(err, func(e error) string { return proofVerdict(e, true) })
+			return apiErr(err, func(e error) string {
+				if strings.HasPrefix(e.Error(), "mismatched proof height") {
+					return "height"
+				}
+				return proofVerdict(e, true)
+			})
 		})
 		if v == "PANIC" {
 			panicSig(pmsg, "")
